@@ -1,10 +1,12 @@
-"""Symbolic (Apalache) checks of inductive invariants: spec/apalache/<module>.tla.
+"""Symbolic (Apalache) checks of inductive invariants, bound to the TLC models.
 
-apalache_inductive(module) runs
-    Init    => IndInv            (--init=Init    --inv=IndInv --length=0)
-    IndInv /\\ Next => IndInv'    (--init=IndInit --inv=IndInv --length=1)
-and, as a vacuity guard, the inductive step of each listed textual mutant of the module, which
-must be refuted.  Anything else than these outcomes is a machinery failure.
+symbolic(name, ...) for name in {"BudgetInd", "BreakerInd"}:
+  1. Apalache:  Init => IndInv  and  IndInv /\\ Next => IndInv'  on spec/<name>Apa.tla, for
+     arbitrary integer parameters and times (sequences of up to Gen(n) entries in the pre-state);
+  2. vacuity guard: textual mutants of spec/<name>.tla whose inductive step must be refuted;
+  3. TLC cross-check spec/<name>X.tla: for small constants every step of <name> is the
+     corresponding operator of Budget.tla / Breaker.tla with the same results (and verdicts).
+Anything else than these outcomes is a machinery failure.
 """
 from __future__ import annotations
 
@@ -14,19 +16,24 @@ import subprocess
 import time
 
 from .common import Machinery
+from .tlc import run_tlc
 from .tracecheck import SPEC, WORK
 
 
-def _run(tla_dir, module: str, init: str, length: int, cinit: str | None, timeout: int) -> tuple[str, str]:
+def _apalache(tla_dir, module: str, init: str, length: int, timeout: int) -> tuple[str, str]:
     out = WORK / f"apa-{module}-{os.getpid()}"
-    cmd = ["apalache-mc", "check", f"--init={init}", "--inv=IndInv", f"--length={length}",
-           f"--out-dir={out}"] + ([f"--cinit={cinit}"] if cinit else []) + [f"{module}.tla"]
+    cmd = ["apalache-mc", "check", "--cinit=ConstInit", f"--init={init}", "--inv=IndInv",
+           f"--length={length}", f"--out-dir={out}", f"{module}.tla"]
     try:
         p = subprocess.run(cmd, cwd=tla_dir, capture_output=True, text=True, timeout=timeout)
     except subprocess.TimeoutExpired as exc:
         raise Machinery(f"apalache timed out on {module} ({init})") from exc
     finally:
         shutil.rmtree(out, ignore_errors=True)
+        try:
+            os.rmdir(os.path.join(tla_dir, "tmp"))      # apalache leaves an empty directory behind
+        except OSError:
+            pass
     text = p.stdout + p.stderr
     if "The outcome is: NoError" in text and "EXITCODE: OK" in text:
         return "ok", text
@@ -35,33 +42,82 @@ def _run(tla_dir, module: str, init: str, length: int, cinit: str | None, timeou
     raise Machinery(f"apalache failed on {module} ({init}):\n{text[-1500:]}")
 
 
-def apalache_inductive(module: str, *, cinit: str | None = "ConstInit",
-                       mutants: dict[str, tuple[str, str]] | None = None, timeout: int = 1500) -> dict:
+def symbolic(name: str, *, mutants: dict[str, tuple[str, str]], cross: list[dict],
+             timeout: int = 1500) -> dict:
     WORK.mkdir(exist_ok=True)
-    src_dir = SPEC / "apalache"
     t0 = time.time()
-    r0, text0 = _run(src_dir, module, "Init", 0, cinit, timeout)
+    apa = f"{name}Apa"
+    r0, text0 = _apalache(SPEC, apa, "Init", 0, timeout)
     if r0 != "ok":
-        raise Machinery(f"{module}: IndInv does not hold initially\n{text0[-1500:]}")
-    r1, text1 = _run(src_dir, module, "IndInit", 1, cinit, timeout)
+        raise Machinery(f"{name}: IndInv does not hold initially\n{text0[-1500:]}")
+    r1, text1 = _apalache(SPEC, apa, "IndInit", 1, timeout)
     if r1 != "ok":
-        raise Machinery(f"{module}: IndInv is not inductive\n{text1[-1500:]}")
+        raise Machinery(f"{name}: IndInv is not inductive\n{text1[-1500:]}")
     refuted = []
-    for name, (old, new) in (mutants or {}).items():
-        text = (src_dir / f"{module}.tla").read_text()
-        if old not in text:
-            raise Machinery(f"{module}: mutant {name} does not apply")
+    core = (SPEC / f"{name}.tla").read_text()
+    for mname, (old, new) in mutants.items():
+        if old not in core:
+            raise Machinery(f"{name}: mutant {mname} does not apply")
         mdir = WORK / f"apa-mut-{os.getpid()}"
-        mdir.mkdir(exist_ok=True)
-        mmod = f"{module}Mut"
-        (mdir / f"{mmod}.tla").write_text(text.replace(old, new).replace(f"MODULE {module}", f"MODULE {mmod}"))
+        shutil.rmtree(mdir, ignore_errors=True)
+        mdir.mkdir()
+        (mdir / f"{name}.tla").write_text(core.replace(old, new))
+        shutil.copy(SPEC / f"{apa}.tla", mdir / f"{apa}.tla")
         try:
-            rm, _ = _run(mdir, mmod, "IndInit", 1, cinit, timeout)
+            rm, _ = _apalache(mdir, apa, "IndInit", 1, timeout)
         finally:
             shutil.rmtree(mdir, ignore_errors=True)
         if rm != "violated":
-            raise Machinery(f"vacuity guard: mutant {name} of {module} was not refuted")
-        refuted.append(name)
-    return {"module": f"spec/apalache/{module}.tla", "inductive_invariant": "IndInv",
-            "init_holds": True, "step_preserved": True, "mutants_refuted": refuted,
+            raise Machinery(f"vacuity guard: mutant {mname} of {name} was not refuted")
+        refuted.append(mname)
+    # TLC cross-check against the operators the traces are validated with
+    tpl = (SPEC / f"{name}X.cfg.tpl").read_text()
+    states = 0
+    for consts in cross:
+        text = tpl
+        for k, v in consts.items():
+            text = text.replace(f"@{k}@", str(v))
+        cf = WORK / f"{name}X-{os.getpid()}.cfg"
+        cf.write_text(text)
+        try:
+            res = run_tlc(f"{name}X.tla", str(cf), workers=4, tag=f"{name}X", timeout=timeout)
+        finally:
+            cf.unlink(missing_ok=True)
+        if not res.ok:
+            raise Machinery(f"{name}X: the symbolic formulation differs from the TLC model for {consts}: "
+                            f"{res.violated}\n{res.output[-1500:]}")
+        states += res.distinct
+    return {"modules": [f"spec/{name}.tla", f"spec/{apa}.tla", f"spec/{name}X.tla"],
+            "inductive_invariant": "IndInv", "init_holds": True, "step_preserved": True,
+            "mutants_refuted": refuted, "crosscheck_constants": cross, "crosscheck_states": states,
             "wall_s": round(time.time() - t0, 1)}
+
+
+def budget_symbolic(tier: str) -> dict:
+    muts = {"prune-keeps-boundary": ("Keep(e) == e > cutoff", "Keep(e) == e >= cutoff")}
+    if tier != "quick":
+        muts["capacity-off-by-one"] = ("IF Len(q1) + cost > Max THEN 0 ELSE 1",
+                                       "IF Len(q1) + cost > Max + 1 THEN 0 ELSE 1")
+    cross = [{"MAX": m, "W": w} for m, w in ((0, 1), (1, 2), (2, 3), (3, 2))]
+    if tier != "quick":
+        cross += [{"MAX": m, "W": w} for m in (1, 3, 4) for w in (1, 4)]
+    return symbolic("BudgetInd", mutants=muts, cross=cross)
+
+
+def breaker_symbolic(tier: str) -> dict:
+    muts = {"recovery-boundary": ("mAllowed == IF st = \"open\" THEN t - openedAt >= R",
+                                  "mAllowed == IF st = \"open\" THEN t - openedAt > R")}
+    if tier != "quick":
+        muts.update({
+            "prune-keeps-boundary": ("Keep(e) == e > cutoff", "Keep(e) == e >= cutoff"),
+            "probe-flag-survives-failure": ("        /\\ probe' = IF st = \"half\" THEN FALSE ELSE probe\n        /\\ fails' = IF mOpens",
+                                            "        /\\ probe' = probe\n        /\\ fails' = IF mOpens"),
+            "class-threshold-off-by-one": ("IF HasThr(k) /\\ Len(bucket) >= CThr THEN TRUE",
+                                           "IF HasThr(k) /\\ Len(bucket) > CThr THEN TRUE")})
+    cross = [{"THR": 2, "W": 3, "R": 2, "CTHR": 2, "KTRIP": "FALSE"},
+             {"THR": 1, "W": 2, "R": 1, "CTHR": 0, "KTRIP": "TRUE"},
+             {"THR": 3, "W": 2, "R": 3, "CTHR": 1, "KTRIP": "TRUE"}]
+    if tier != "quick":
+        cross += [{"THR": t, "W": w, "R": 2, "CTHR": ct, "KTRIP": "TRUE" if (t + w + ct) % 2 else "FALSE"}
+                  for t in (1, 3) for w in (1, 4) for ct in (0, 2)]
+    return symbolic("BreakerInd", mutants=muts, cross=cross)
